@@ -8,6 +8,10 @@ open GoDcp.Driver
 structure DState where
   sess : GoDcp.St := {}
   smon : SMon := {}
+  caseStart : GoDcp.St := {}
+  caseOps : List GoDcp.Op := []
+  sessStart : GoDcp.St := {}
+  sessOps : List GoDcp.Op := []
   life : GoDcp.Life.LSt := {}
   lmon : LMon := {}
 
@@ -22,12 +26,21 @@ def handle (st : DState) (line : String) : DState × String :=
   | c :: args =>
     match sessionLine st.sess (c :: args) with
     | some (s', out) =>
-      if c == "reset" then ({ st with sess := s', smon := {} }, s!"{out}\t-") else
+      if c == "reset" then ({ st with sess := s', smon := {}, caseStart := {}, caseOps := [], sessStart := {}, sessOps := [] }, s!"{out}\t-") else
+      if c == "cfg" then ({ st with sess := s', caseStart := s', caseOps := [] }, s!"{out}\t-") else
+      -- histories for the known-finding classifiers: whole case (C01), current session (C05)
+      let opO := parseOp (c :: args)
+      let caseOps := match opO with | some o => st.caseOps ++ [o] | none => st.caseOps
+      let (sessStart, sessOps) := match opO with
+        | some .open => (s', [])
+        | some o => (st.sessStart, st.sessOps ++ [o])
+        | none => (st.sessStart, st.sessOps)
+      let st1 := { st with sess := s', caseOps := caseOps, sessStart := sessStart, sessOps := sessOps }
       match real with
-      | none => ({ st with sess := s' }, s!"{out}\t-")
+      | none => (st1, s!"{out}\t-")
       | some r =>
-        let (m', v) := smonStep st.smon st.sess s' (c :: args) r
-        ({ st with sess := s', smon := m' }, s!"{out}\t{v}")
+        let (m', v) := smonStep st.smon st.sess s' (c :: args) r st.caseStart caseOps sessStart sessOps
+        ({ st1 with smon := m' }, s!"{out}\t{v}")
     | none =>
     match lifeLine st.life st.lmon (c :: args) real with
     | some (l', m', out, v) => ({ st with life := l', lmon := m' }, s!"{out}\t{v}")
